@@ -10,6 +10,9 @@ import ChessVerif.Spec.Fen
 import ChessVerif.Spec.Attacks
 import ChessVerif.Model.Time
 import ChessVerif.Gen.Importance
+import ChessVerif.Model.Bitbase
+import ChessVerif.Spec.KPK
+import ChessVerif.Model.Eval
 open Chess
 
 -- floating point instance of the time manager ---------------------------------------------------------
@@ -70,7 +73,8 @@ def specBest (es : List BookEntry) : Option BookEntry :=
   es.find? (fun e => e.weight = mx)
 
 structure ExtraState where
-  dummy : Nat := 0
+  kpk : Option (Array Bool) := none     -- the spec's solved KPK table, computed on first use
+  cache : PawnCache := {}               -- the model of the session's long-lived evaluator
 
 def hexs (n : Nat) : String := String.ofList (Nat.toDigits 16 n)
 def hex16' (n : Nat) : String :=
@@ -85,7 +89,34 @@ def argN (args : List String) (i : Nat) : Nat := (args.getD i "0").toNat?.getD 0
 
 def extraOp (x : ExtraState) (mp : Position) (_sp : Spec.SPos) (op : String) (args : List String) :
     Option (ExtraState × String × String) :=
-  if op = "book" then
+  if op = "eval" then
+    let v := "eval " ++ toString (evalPure mp)
+    some (x, v, v)
+  else if op = "evalw" then
+    let (v, c) := evalCached x.cache mp
+    -- specification of a transparent cache: the warm value IS the pure value
+    some ({ x with cache := c }, "evalw " ++ toString v, "evalw " ++ toString (evalPure mp))
+  else if op = "evalclear" then
+    some ({ x with cache := x.cache.clear }, "evalclear ok", "evalclear ok")
+  else if op = "pawnslot" then
+    let v := "pawnslot " ++ toString (mp.hash.pawnK % PAWN_CACHE_SIZE)
+    some (x, v, v)
+  else if op = "kpkrow" then
+    let strong := argN args 0; let stm := argN args 1; let psq := argN args 2
+    let tab := match x.kpk with | some t => t | none => (Spec.KPK.solve ()).1
+    let pre := "kpkrow " ++ toString strong ++ " " ++ toString stm ++ " " ++ toString psq ++ " "
+    let cells (f : Nat → Nat → Char) : String :=
+      String.ofList ((List.range 64).flatMap (fun sk => (List.range 64).map (fun wkk =>
+        if sk = wkk ∨ sk = psq ∨ wkk = psq then '-' else f sk wkk)))
+    let m := cells (fun sk wkk => if kpkSaysWin strong stm sk psq wkk then 'W' else 'D')
+    -- spec: White-pawn frame; a black pawn is the colour mirror (ranks flipped, side to move swapped)
+    let fl (s : Nat) : Nat := if strong = 0 then s else (7 - s / 8) * 8 + s % 8
+    let sstm := if strong = 0 then stm else 1 - stm
+    let s := cells (fun sk wkk =>
+      let q : Spec.KPK.Pos := { stm := sstm, wk := fl sk, wp := fl psq, bk := fl wkk }
+      if Spec.KPK.legal q then (if tab.getD (Spec.KPK.idx q) false then 'W' else 'D') else 'x')
+    some ({ x with kpk := some tab }, pre ++ m, pre ++ s)
+  else if op = "book" then
     let bs := hexBytes (args.getD 0 "-")
     some (x, showBook (loadBook bs), showBook (specBook bs))
   else if op = "bookbest" then
